@@ -237,20 +237,59 @@ Definition try_recv_core (s : st) : st * trr :=
   | [] => if N.eqb (sc s) 0 then (s, TrDisc) else (s, TrEmpty)
   end.
 
+(** ** core.rs: the batch cores *)
+(* try_send_batch_core looks for a receiver to hand each item to with `pop_front`: waiters that are not
+   WAITING any more are popped and forgotten, the first WAITING one is CASed, (already popped,) woken *)
+Fixpoint skip_nw (g : N -> option fut) (l : list (N * N)) : list (N * N) :=
+  match l with
+  | [] => []
+  | (f, w) :: t =>
+      match g f with
+      | Some x => if is_waiting (f_state x) then l else skip_nw g t
+      | None => skip_nw g t
+      end
+  end.
+
+Definition hand_one_recv (s : st) : st :=
+  wake_one_recv (with_arq (skip_nw (fun f => getF f s) (arq s)) s).
+
+(* the `while sent < limit` loop: every item is pushed (after possibly waking a receiver) until full *)
+Fixpoint send_loop (vs : list N) (s : st) : st * list N :=
+  match vs with
+  | [] => (s, [])
+  | v :: r => if is_full s then (s, vs) else send_loop r (push v (hand_one_recv s))
+  end.
+
+(* try_recv_batch_core: drain k = min(max, len) items, then wake up to `max` parked senders *)
+Fixpoint wake_senders (n : nat) (s : st) : st :=
+  match n with O => s | S k => wake_senders k (wake_one_send s) end.
+
+Definition drain (k : nat) (s : st) : st :=
+  with_recvd (recvd s ++ firstn k (q s)) (with_q (skipn k (q s)) s).
+
+Fixpoint seqN (a : N) (n : nat) : list N :=
+  match n with O => [] | S k => a :: seqN (a + 1) k end.
+
 (** ** results *)
 Inductive res :=
 | ROk | RFull (v : N) | RClosedV (v : N) | RClosed | RVal (v : N) | REmpty | RDisc | RTimeout
 | RWouldBlock | RCloseErr | RNoHandle | RWrongKind | RBadId | RBorrowed | RNoFut | RDone
 | RPending | RReadyOk | RReadyClosed | RReadyVal (v : N) | RReadyDisc
 | RObs (len : N) (emp full : bool) (cp : N) (closed : bool)
-| RPanic.
+| RPanic
+(* batch forms: try_send_batch Ok(n) / Err{sent, unsent, reason}; try_send_batch_mut Ok(k) / Err(Closed)
+   with what is left in the caller's vector; try_recv_batch Ok(items); try_recv_batch_mut Ok(n) + items *)
+| RBOk (n : N) | RBErr (sent : N) (closed : bool) (unsent : list N)
+| RMOk (k : N) (rest : list N) | RMClosed (rest : list N)
+| RVals (l : list N) | RNVals (l : list N).
 
 Record out := mkOut { o_res : res; o_wakes : list N; o_drops : list N; o_bad : bool }.
 
 Inductive op :=
 | TrySend (h : N) | TryRecv (h : N) | Send (h : N) | Recv (h : N) | RecvTimeout (h : N)
 | Clone (h h2 : N) | Close (h : N) | DropH (h : N) | Convert (h h2 : N) | Observe (h : N)
-| MkSend (f h : N) | MkRecv (f h : N) | Poll (f w : N) | DropF (f : N).
+| MkSend (f h : N) | MkRecv (f h : N) | Poll (f w : N) | DropF (f : N)
+| TrySendBatch (inplace : bool) (h n : N) | TryRecvBatch (inplace : bool) (h m : N).
 
 (** ** mod.rs: close_internal of the four handle types *)
 (* Sender/AsyncSender::close_internal; None = `sender_count -= 1` underflows (panic with overflow checks) *)
@@ -571,6 +610,49 @@ Definition step (s0 : st) (o : op) : st * out :=
             let s := match f_item x with Some v => destroy v s | None => s end in
             ret s ROk
       | None => ret s RNoFut
+      end
+  | TrySendBatch inplace h n =>
+      (* Sender/AsyncSender::try_send_batch (by value) and try_send_batch_mut (in place) *)
+      match getH h s with
+      | Some x =>
+          if negb (h_live x) then ret s RNoHandle
+          else if negb (h_tx x) then ret s RWrongKind
+          else
+            let vs := seqN (next s) (N.to_nat n) in
+            let s := with_next (next s + n) s in
+            let fail (closed : bool) (sent : N) (un : list N) (s : st) :=
+              let s := with_back (back s ++ un) s in
+              if inplace then (if closed && N.eqb sent 0 then ret s (RMClosed un) else ret s (RMOk sent un))
+              else ret s (RBErr sent closed un) in
+            if N.eqb n 0 then ret s (if inplace then RMOk 0 [] else RBOk 0)
+            else if h_closed x then fail true 0 vs s
+            else if N.eqb (rc s) 0 then fail true 0 vs s
+            else
+              let '(s, un) := send_loop vs s in
+              match un with
+              | [] => ret s (if inplace then RMOk n [] else RBOk n)
+              | _ :: _ => fail false (n - N.of_nat (length un)) un s
+              end
+      | None => ret s RNoHandle
+      end
+  | TryRecvBatch inplace h m =>
+      (* Receiver/AsyncReceiver::try_recv_batch and try_recv_batch_mut *)
+      match getH h s with
+      | Some x =>
+          if negb (h_live x) then ret s RNoHandle
+          else if h_tx x then ret s RWrongKind
+          else if N.eqb m 0 then ret s (if inplace then RNVals [] else RVals [])
+          else if h_closed x then ret s RDisc
+          else
+            let k := Nat.min (N.to_nat m) (length (q s)) in
+            match k with
+            | O => if N.eqb (sc s) 0 then ret s RDisc else ret s REmpty
+            | S _ =>
+                let items := firstn k (q s) in
+                let s := wake_senders (N.to_nat m) (drain k s) in
+                ret s (if inplace then RNVals items else RVals items)
+            end
+      | None => ret s RNoHandle
       end
   end.
 
